@@ -448,21 +448,23 @@ def check_no_rollback(prog, rep, rule="NO-ROLLBACK"):
     rep.rule(rule, "no construct in aw_datastore can roll back the sqlite connection's open transaction: no .rollback() call, no `with <connection>` block (sqlite3 rolls back on an exception and commits behind commit()'s back otherwise), no executescript(); acknowledged but not yet committed writes of other operations and other buckets live in that transaction")
     n = 0
     for f2 in prog.funcs.values():
-        if not f2.mod.name.startswith("aw_datastore"):
-            continue
         n += 1
         aliases = {"self.conn"}
         for x in walk_own(f2.node):
             if isinstance(x, ast.Assign) and norm(x.value) == "self.conn":
                 aliases |= {norm(t) for t in x.targets}
         for x in walk_with_nested_exprs(f2.node):
+            if f2.cls is not cls and ((isinstance(x, ast.Attribute) and x.attr == "conn") or (isinstance(x, ast.Call) and isinstance(x.func, ast.Name) and x.func.id == "getattr" and len(x.args) >= 2 and isinstance(x.args[1], ast.Constant) and x.args[1].value == "conn")):
+                rep.violation(rule, f2.short, "access to the connection", f"`{norm(x)[:60]}` reaches the sqlite connection from outside SqliteStorage: whoever holds it can commit, roll back or enter it as a context manager (which rolls the open transaction back when the block raises) behind the store's back", f2.loc(x))
             if isinstance(x, ast.Call) and isinstance(x.func, ast.Attribute) and x.func.attr == "rollback" and "db" not in norm(x.func.value).split(".")[-1:]:
                 rep.violation(rule, f2.short, "rollback()", f"`{norm(x)}` discards every write acknowledged since the last commit, including those of other operations and other buckets", f2.loc(x))
             if isinstance(x, ast.Call) and isinstance(x.func, ast.Attribute) and x.func.attr == "executescript":
                 rep.violation(rule, f2.short, "executescript()", "executescript() commits the open transaction behind commit()'s back", f2.loc(x))
-            if isinstance(x, (ast.With, ast.AsyncWith)) and f2.cls is cls:
+            if isinstance(x, (ast.With, ast.AsyncWith)):
                 for it in x.items:
-                    if norm(it.context_expr) in aliases:
+                    ce = it.context_expr
+                    conn_like = norm(ce) in aliases if f2.cls is cls else (isinstance(ce, ast.Attribute) and ce.attr == "conn") or (isinstance(ce, ast.Name) and isinstance(single_def(f2, ce.id), ast.Attribute) and single_def(f2, ce.id).attr == "conn") or (isinstance(ce, ast.Name) and isinstance(single_def(f2, ce.id), ast.Call) and norm(single_def(f2, ce.id).func) == "getattr" and len(single_def(f2, ce.id).args) >= 2 and norm(single_def(f2, ce.id).args[1]) == "'conn'")
+                    if conn_like:
                         rep.violation(rule, f2.short, f"with {norm(it.context_expr)}", f"`with {norm(it.context_expr)}:` makes sqlite3 roll the whole open transaction back when the block raises (and commit it, without resetting the counters, when it does not): an error in this operation discards earlier acknowledged writes of other operations and other buckets", f2.loc(x))
     rep.ok(rule, "aw_datastore", "scan", f"{n} functions scanned", None)
 
